@@ -179,7 +179,12 @@ class SpecMixin:
             a0 = n.args[0]
             if isinstance(a0, ast.Constant) and isinstance(a0.value, str):
                 a0 = parse_expr(a0.value)
-            return self.with_envs(self.old_envs, lambda: self.eval(a0))
+            saved_heap = self.heap
+            self.heap = dict(self.heap_old) if self.heap_old else self.heap
+            try:
+                return self.with_envs(self.old_envs, lambda: self.eval(a0))
+            finally:
+                self.heap = saved_heap
         if name == "joinr":
             sep, xs, a, b = (self.eval(x) for x in n.args)
             xs = self.as_vlist(xs, "str")
@@ -209,6 +214,15 @@ class SpecMixin:
         if name == "wit":
             # witness (ghost / local) of the last call of a callee that was used by contract
             return self.callee_envs[n.args[0].value][n.args[1].value]
+        if name == "isinst":
+            # isinst(ref, 'module.Class', ...) over the live Marko class hierarchy
+            v = self.eval(n.args[0])
+            import importlib
+            classes = []
+            for a in n.args[1:]:
+                mod, _, cn = a.value.rpartition(".")
+                classes.append(getattr(importlib.import_module(mod), cn))
+            return self.unit.ref_isinstance(self, v, tuple(classes))
         if name == "isnone":
             v = self.eval(n.args[0])
             return self.eq(v, None)
